@@ -264,7 +264,6 @@ func TestC12(t *testing.T) {
 				c.Violation("cast5 RFC 2144 B.2 maintenance test", "")
 				t.Fatalf("VF-VIOLATION: property=C12 cast5 RFC 2144 B.2 maintenance test: a=%x b=%x err=%v", a, b, err)
 			}
-			c.Evals(2000000)
 			c.Case(false, "", "cast5:rfc2144-B.2-maintenance")
 		}
 	}
